@@ -150,8 +150,10 @@ func runParent(def *CheckDef, tier string, seed int64, scratch string, nw int) i
 	}
 	self, _ := os.Executable()
 	limit := 12 * time.Minute
+	cpuBudget := int64(100)
 	if tier == "thorough" {
 		limit = 90 * time.Minute
+		cpuBudget = 900
 	}
 	type wstate struct {
 		res      WorkerResult
@@ -167,6 +169,7 @@ func runParent(def *CheckDef, tier string, seed int64, scratch string, nw int) i
 		go func(k int) {
 			defer wg.Done()
 			st := &states[k]
+			cpuKills := 0
 			killedNoBanner := 0
 			_ = killedNoBanner
 			resume := int64(-1)
@@ -187,15 +190,38 @@ func runParent(def *CheckDef, tier string, seed int64, scratch string, nw int) i
 				done := make(chan error, 1)
 				go func() { done <- cmd.Wait() }()
 				var werr error
-				select {
-				case werr = <-done:
-				case <-time.After(time.Until(deadline)):
-					cmd.Process.Kill()
-					<-done
-					st.timedOut = true
-					lf.Close()
-					return
+				// CPU-time watchdog per case: a loop in the code under test that never reaches a hook cannot be
+				// stopped by the step budgets; if the worker burns cpuBudget seconds of its own CPU time on one
+				// journalled case (load-independent, unlike wall clock) it is killed and that case is reported
+				cpuKilled := false
+				lastIdx, cpuAtStart := int64(-2), int64(0)
+				tick := time.NewTicker(2 * time.Second)
+			waitLoop:
+				for {
+					select {
+					case werr = <-done:
+						break waitLoop
+					case <-time.After(time.Until(deadline)):
+						cmd.Process.Kill()
+						<-done
+						st.timedOut = true
+						lf.Close()
+						tick.Stop()
+						return
+					case <-tick.C:
+						cpu := procCPUSeconds(cmd.Process.Pid)
+						var jc Case
+						if jb, err := os.ReadFile(filepath.Join(scratch, fmt.Sprintf("journal.%d", k))); err == nil && json.Unmarshal(jb, &jc) == nil {
+							if jc.Idx != lastIdx {
+								lastIdx, cpuAtStart = jc.Idx, cpu
+							} else if cpu >= 0 && cpu-cpuAtStart > cpuBudget {
+								cpuKilled = true
+								cmd.Process.Kill()
+							}
+						}
+					}
 				}
+				tick.Stop()
 				lf.Close()
 				if b, err := os.ReadFile(resFile); err == nil && werr == nil {
 					var r WorkerResult
@@ -226,7 +252,10 @@ func runParent(def *CheckDef, tier string, seed int64, scratch string, nw int) i
 						break
 					}
 				}
-				if sig == "worker-death" {
+				if cpuKilled {
+					cpuKills++
+					st.crashes = append(st.crashes, Violation{Property: def.ID, Case: cs, Why: fmt.Sprintf("no termination: the interpreter used more than %d s of CPU time on this one case without reaching any step budget (a loop that makes no progress)", cpuBudget), Observed: trunc(logs, 600), Signature: "no-termination:cpu-budget"})
+				} else if sig == "worker-death" {
 					// no Go panic / fatal-error banner: the worker was killed from outside
 					// (memory pressure, watchdog) — a resource matter, never a violation
 					st.notes = append(st.notes, fmt.Sprintf("worker of shard %d was killed without a Go failure banner while running case #%d (%s); skipped", k, cs.Idx, cs.Gen))
@@ -235,6 +264,10 @@ func runParent(def *CheckDef, tier string, seed int64, scratch string, nw int) i
 					st.crashes = append(st.crashes, Violation{Property: def.ID, Case: cs, Why: "interpreter killed the process (unrecoverable host-runtime failure)", Observed: trunc(logs, 1500), Signature: sig})
 				}
 				resume = cs.Idx
+				if cpuKills >= 2 {
+					st.notes = append(st.notes, fmt.Sprintf("shard %d stopped after two cases exhausted the CPU budget", k))
+					return
+				}
 			}
 			st.broken = "worker restarted too many times"
 		}(k)
@@ -391,4 +424,26 @@ func harnessFault(logs string) bool {
 		return strings.HasPrefix(ln, "main.") || strings.HasPrefix(ln, "verifharness/")
 	}
 	return false
+}
+
+
+// procCPUSeconds: user+system CPU time consumed so far by the process itself (not its children), or -1.
+func procCPUSeconds(pid int) int64 {
+	b, err := os.ReadFile(fmt.Sprintf("/proc/%d/stat", pid))
+	if err != nil {
+		return -1
+	}
+	str := string(b)
+	i := strings.LastIndex(str, ")")
+	if i < 0 {
+		return -1
+	}
+	f := strings.Fields(str[i+1:])
+	if len(f) < 14 {
+		return -1
+	}
+	var ut, stt int64
+	fmt.Sscan(f[11], &ut)
+	fmt.Sscan(f[12], &stt)
+	return (ut + stt) / 100
 }
